@@ -41,7 +41,7 @@ ANCHORS = ['pfhedge.nn.functional:european_payoff',
 PYTEST_WORKLOAD = True  # thorough tier also runs /repo/tests with these passive monitors attached (DESIGN.md 2.7)
 DECIDING = ["payoff.european", "payoff.lookback", "payoff.american_binary", "payoff.european_binary",
             "payoff.forward_start", "payoff.realized_variance", "derivative.payoff_fn", "clauses.order", "relations"]
-REQUIRED_BRANCHES = ["tie_with_unrepresentable_strike", "tie_with_strike", "call", "put", "T=1", "T=2"]
+REQUIRED_BRANCHES = ["payoff_after_resimulation", "tie_with_unrepresentable_strike", "tie_with_strike", "call", "put", "T=1", "T=2"]
 
 _CTX = None
 MAXR = 12
@@ -440,6 +440,13 @@ def drv_derivative(ctx, k, rng):
     if d._pfv_kind == "varswap" and stock.spot.shape[1] < 2:
         return
     base = d.payoff()  # payoff_fn monitor judges the contract
+    if rng.random() < 0.4 and n_steps > 0:
+        # new market data through the shared underlier: the payoff must be that of the *current* paths (judged again by the payoff_fn monitor)
+        stock.simulate(n_paths=n, time_horizon=d.maturity)
+        ctx.branch("payoff_after_resimulation")
+        if d._pfv_kind == "varswap" and stock.spot.shape[1] < 2:
+            return
+        base = d.payoff()
     ctx.seen("derivative.payoff_shape")
     ctx.check("derivative.payoff_shape", base.shape == (n,), "shape", f"payoff shape {tuple(base.shape)} for {n} paths",
               sig=(d._pfv_kind,))
